@@ -13,6 +13,7 @@ From RPCX Require Server.Dispatch.
 From RPCX Require Pool.Pool.
 From RPCX Require Server.Ingress.
 From RPCX Require Server.Shutdown.
+From RPCX Require Wire.Shared.
 Extraction Language OCaml.
 Extraction "model.ml"
   RoundRobin.rr_new RoundRobin.rr_run
@@ -33,4 +34,5 @@ Extraction "model.ml"
   Dispatch.crun Dispatch.cinit
   Pool.find_get Pool.find_put Pool.class_size Pool.last_class
   Ingress.serve
-  Shutdown.step Shutdown.init Shutdown.run Shutdown.writes Shutdown.is_open.
+  Shutdown.step Shutdown.init Shutdown.run Shutdown.writes Shutdown.is_open
+  Shared.wrun.
